@@ -483,6 +483,28 @@ static const FunctionDecl *calleeOf(const CallExpr *CE) {
   return CE->getDirectCallee();
 }
 
+// "all" if S is lexically inside the try-block of a try statement with a
+// catch-all handler, "some" if inside a try-block without one.
+static std::string tryContext(Ctx &C, const Stmt *S) {
+  const Stmt *Cur = S;
+  std::string res;
+  for (int fuel = 0; fuel < 64 && Cur; ++fuel) {
+    const Stmt *P = parentStmt(C, Cur);
+    if (!P) break;
+    if (auto *TS = dyn_cast<CXXTryStmt>(P)) {
+      if (TS->getTryBlock() == Cur) {
+        bool all = false;
+        for (unsigned h = 0; h < TS->getNumHandlers(); ++h)
+          if (!TS->getHandler(h)->getExceptionDecl()) all = true;
+        if (all) return "all";
+        res = "some";
+      }
+    }
+    Cur = P;
+  }
+  return res;
+}
+
 static void addLoc(Ctx &C, json::Object &o, const Stmt *S) {
   o["line"] = (int64_t)lineOf(C, S->getBeginLoc());
   std::string f = fileOf(C, S->getBeginLoc());
@@ -533,6 +555,10 @@ static void emitEvents(Ctx &C, const Stmt *S, const FunctionDecl *Cur, json::Arr
         }
       }
       o["x"] = std::move(s);
+      {
+        std::string tc = tryContext(C, CE);
+        if (!tc.empty()) o["try"] = tc;
+      }
       addLoc(C, o, CE);
       ev.push_back(std::move(o));
       return;
